@@ -8,11 +8,28 @@ whitelist of builtins are interpreted.  Anything else raises ``Unknown``.
 """
 import ast
 
-from .srcmodel import Unknown, FuncRef, Regex, func_params, unparse
+from .srcmodel import Unknown, FuncRef, Regex, Partial, func_params, unparse
 
 
 import re as _re_mod
 _re_Match = _re_mod.Match
+
+
+_STR_METHODS = (
+    "startswith", "endswith", "lower", "upper", "strip", "rstrip", "lstrip", "split", "rsplit", "count", "replace",
+    "join", "encode", "decode", "isdigit", "isalpha", "isalnum", "isspace", "find", "rfind", "index", "partition",
+    "rpartition", "format", "title", "capitalize", "casefold", "splitlines", "zfill", "isupper", "islower",
+)
+_PURE_METHODS = {
+    str: _STR_METHODS,
+    bytes: _STR_METHODS + ("hex",),
+    bytearray: _STR_METHODS + ("extend", "append", "hex", "copy"),
+    list: ("append", "pop", "extend", "index", "count", "insert", "copy", "reverse", "sort", "remove"),
+    tuple: ("index", "count"),
+    dict: ("get", "items", "keys", "values", "copy", "update", "setdefault", "pop"),
+    set: ("add", "update", "copy", "discard", "union", "intersection"),
+    frozenset: ("union", "intersection", "copy"),
+}
 
 
 class Native(object):
@@ -20,6 +37,49 @@ class Native(object):
 
     def __init__(self, fn):
         self.fn = fn
+
+
+class Obj(object):
+    """instance of a ural class: attribute store + the class body it was built from"""
+
+    def __init__(self, module, cls, attrs=None):
+        self.module = module
+        self.cls = cls
+        self.attrs = dict(attrs or {})
+
+    def __repr__(self):
+        return "<%s %r>" % (self.cls.name, self.attrs)
+
+
+class Bound(object):
+    def __init__(self, obj, fn):
+        self.obj = obj
+        self.fn = fn
+
+
+class Raised(Exception):
+    """the interpreted code raises (exception class name in .name)"""
+
+    def __init__(self, name):
+        Exception.__init__(self, name)
+        self.name = name
+
+
+def instantiate(repo, module, cls, args=(), kwargs=None, depth=0):
+    obj = Obj(module, cls)
+    for st in cls.body:
+        if isinstance(st, ast.FunctionDef) and st.name == "__init__":
+            run_function(repo, FuncRef(module, st, "%s.%s.__init__" % (module.name, cls.name)), [obj] + list(args), kwargs, depth + 1)
+    return obj
+
+
+def _class_member(repo, obj, name):
+    for st in obj.cls.body:
+        if isinstance(st, ast.FunctionDef) and st.name == name:
+            return Bound(obj, st)
+        if isinstance(st, ast.Assign) and any(isinstance(t, ast.Name) and t.id == name for t in st.targets):
+            return repo.ceval(obj.module, st.value)
+    raise Unknown("attribute %s of %s" % (name, obj.cls.name))
 
 
 class _Break(Exception):
@@ -58,11 +118,24 @@ def run_function(repo, ref, args=(), kwargs=None, depth=0):
     ev = _Interp(repo, module, env, depth)
     if isinstance(fn, ast.Lambda):
         return ev.expr(fn.body)
+    is_gen = any(isinstance(x, (ast.Yield, ast.YieldFrom)) for x in _walk_own(fn))
     try:
         ev.block(fn.body)
     except _Return as r:
-        return r.value
-    return None
+        if not is_gen:
+            return r.value
+    # a generator is read as the list of the values it yields (all uses in ural consume it at once)
+    return ev.yields if is_gen else None
+
+
+def _walk_own(fn):
+    stack = list(fn.body)
+    while stack:
+        n = stack.pop()
+        yield n
+        for ch in ast.iter_child_nodes(n):
+            if not isinstance(ch, (ast.FunctionDef, ast.Lambda, ast.ClassDef)):
+                stack.append(ch)
 
 
 class _Interp(object):
@@ -71,6 +144,7 @@ class _Interp(object):
         self.module = module
         self.env = env
         self.depth = depth
+        self.yields = []
 
     def block(self, body):
         for st in body:
@@ -100,6 +174,12 @@ class _Interp(object):
         elif isinstance(st, ast.Expr):
             if isinstance(st.value, ast.Constant):
                 return
+            if isinstance(st.value, ast.Yield):
+                self.yields.append(self.expr(st.value.value) if st.value.value is not None else None)
+                return
+            if isinstance(st.value, ast.YieldFrom):
+                self.yields.extend(list(self.expr(st.value.value)))
+                return
             self.expr(st.value)
         elif isinstance(st, ast.Pass):
             pass
@@ -124,6 +204,12 @@ class _Interp(object):
                     break
                 except _Continue:
                     continue
+        elif isinstance(st, ast.Raise):
+            name = "Exception"
+            if st.exc is not None:
+                e = st.exc.func if isinstance(st.exc, ast.Call) else st.exc
+                name = unparse(e)
+            raise Raised(name)
         elif isinstance(st, ast.Break):
             raise _Break()
         elif isinstance(st, ast.Continue):
@@ -140,6 +226,13 @@ class _Interp(object):
                 raise Unknown("unpack arity")
             for a, b in zip(t.elts, vs):
                 self.assign(a, b)
+        elif isinstance(t, ast.Attribute) and isinstance(self.expr(t.value), Obj):
+            self.expr(t.value).attrs[t.attr] = v
+        elif isinstance(t, ast.Subscript):
+            base = self.expr(t.value)
+            if not isinstance(base, (dict, list)):
+                raise Unknown("subscript assignment on %s" % type(base).__name__)
+            base[self.expr(t.slice)] = v
         else:
             raise Unknown("assign target")
 
@@ -207,6 +300,14 @@ class _Interp(object):
             self._comp(n, 0, out)
             return out
         if isinstance(n, ast.Attribute):
+            try:
+                base = self.expr(n.value)
+            except Unknown:
+                base = None
+            if isinstance(base, Obj):
+                if n.attr in base.attrs:
+                    return base.attrs[n.attr]
+                return _class_member(self.repo, base, n.attr)
             raise Unknown("attribute %s" % n.attr)
         if isinstance(n, ast.Name) and n.id not in self.env:
             ref = self.repo.resolve(self.module, n.id)
@@ -242,27 +343,27 @@ class _Interp(object):
             dn = self.repo.dotted(self.module, f) if not (isinstance(f.value, ast.Name) and f.value.id in self.env) else None
             if dn is None:
                 base = self.expr(f.value)
-                if isinstance(base, (str, bytes)) and f.attr in (
-                    "startswith", "endswith", "lower", "upper", "strip", "rstrip", "lstrip", "split",
-                    "rsplit", "count", "replace", "join", "encode", "isdigit", "find",
-                ):
+                if isinstance(base, Obj):
+                    m = base.attrs[f.attr] if f.attr in base.attrs else _class_member(self.repo, base, f.attr)
+                    return self.call_value(m, args, kwargs)
+                if isinstance(base, (str, bytes, bytearray, list, tuple, dict, set, frozenset)) and f.attr in _PURE_METHODS.get(type(base), ()):
+                    # constant folding of a built-in method on a concrete built-in value
                     try:
-                        return getattr(base, f.attr)(*args, **kwargs)
+                        r = getattr(base, f.attr)(*args, **kwargs)
                     except Exception as e:
-                        raise Unknown("method raised %s" % e)
-                if isinstance(base, (dict,)) and f.attr in ("get", "items", "keys", "values"):
-                    r = getattr(base, f.attr)(*args)
-                    return list(r) if f.attr != "get" else r
-                if isinstance(base, bytearray) and f.attr in ("extend", "append"):
+                        raise Unknown("method %s raised %s" % (f.attr, type(e).__name__))
+                    if isinstance(base, dict) and f.attr in ("items", "keys", "values"):
+                        return list(r)
+                    return r
+                if isinstance(base, Regex) and f.attr in ("split", "findall", "subn"):
+                    import re as _re
                     try:
-                        return getattr(base, f.attr)(*args)
+                        return getattr(_re.compile(base.pattern, base.flags), f.attr)(*args)
                     except Exception as e:
-                        raise Unknown("bytearray method raised %s" % e)
-                if isinstance(base, list) and f.attr in ("append", "pop", "extend", "index", "count"):
-                    try:
-                        return getattr(base, f.attr)(*args)
-                    except Exception as e:
-                        raise Unknown("list method raised %s" % e)
+                        raise Unknown("regex op raised %s" % e)
+                if isinstance(base, Regex) and f.attr == "finditer":
+                    import re as _re
+                    return list(_re.compile(base.pattern, base.flags).finditer(*args))
                 if isinstance(base, Regex) and f.attr in ("match", "search", "fullmatch", "sub"):
                     # constant folding of a regex constant applied to a constant string (stdlib re, no ural code)
                     import re as _re
@@ -298,12 +399,7 @@ class _Interp(object):
             raise Unknown("call %s" % dn)
         if isinstance(f, ast.Name):
             if f.id in self.env:
-                v = self.env[f.id]
-                if isinstance(v, FuncRef):
-                    return run_function(self.repo, v, args, kwargs, self.depth + 1)
-                if isinstance(v, Native):
-                    return v.fn(*args, **kwargs)
-                raise Unknown("call of local value")
+                return self.call_value(self.env[f.id], args, kwargs)
             if f.id == "reversed":
                 return list(reversed(list(args[0])))
             if f.id == "iter":
@@ -317,7 +413,7 @@ class _Interp(object):
                 raise Unknown("isinstance against %s" % tname)
             if f.id in ("len", "str", "int", "bool", "all", "any", "tuple", "list", "sorted", "min", "max", "callable"):
                 if f.id == "callable":
-                    return isinstance(args[0], FuncRef)
+                    return isinstance(args[0], (FuncRef, Bound, Native))
                 import builtins
                 try:
                     return getattr(builtins, f.id)(*args, **kwargs)
@@ -326,6 +422,18 @@ class _Interp(object):
             ref = self.repo.resolve(self.module, f.id)
             if ref is not None and ref.node is not None and isinstance(ref.node, (ast.FunctionDef, ast.Lambda)):
                 return run_function(self.repo, ref, args, kwargs, self.depth + 1)
+            if ref is not None and ref.node is not None and isinstance(ref.node, ast.ClassDef):
+                return instantiate(self.repo, ref.module, ref.node, args, kwargs, self.depth)
+            if ref is not None and ref.module is not None and ref.node is not None:
+                # module-level functools.partial of a ural function
+                try:
+                    pv = self.repo.const(ref.module, ref.qualname.rpartition(".")[2]) if ref.qualname.rpartition(".")[0] == ref.module.name else self.repo.const(self.module, f.id)
+                except Unknown:
+                    pv = None
+                if isinstance(pv, Partial) and isinstance(pv.func, FuncRef) and pv.func.node is not None:
+                    kw = dict(pv.kwargs)
+                    kw.update(kwargs)
+                    return run_function(self.repo, pv.func, list(pv.args) + list(args), kw, self.depth + 1)
             if ref is not None and ref.qualname in ("os.path.splitext", "posixpath.splitext"):
                 import posixpath
                 return posixpath.splitext(*args)
@@ -338,6 +446,19 @@ class _Interp(object):
                     raise Unknown("stdlib call raised %s" % e)
             raise Unknown("call to %s" % f.id)
         raise Unknown("call shape")
+
+
+def _call_value(self, v, args, kwargs):
+    if isinstance(v, FuncRef):
+        return run_function(self.repo, v, args, kwargs, self.depth + 1)
+    if isinstance(v, Native):
+        return v.fn(*args, **kwargs)
+    if isinstance(v, Bound):
+        return run_function(self.repo, FuncRef(v.obj.module, v.fn, "%s.%s.%s" % (v.obj.module.name, v.obj.cls.name, v.fn.name)), [v.obj] + list(args), kwargs, self.depth + 1)
+    raise Unknown("call of a %s value" % type(v).__name__)
+
+
+_Interp.call_value = _call_value
 
 
 def _cmp(op, l, r):
